@@ -376,6 +376,59 @@ def run(fx, ck, OP):
         ck.instance("R16.static-elements-order", "%s: %s" % (f.path, kind), F.short_span(sp), ok=ok)
         if not ok:
             ck.finding("R16.static-elements-order", "R16.static-elements-order/%s/%s" % (f.path, kind), F.short_span(sp), "`%s`: %s" % (f.path, why))
+    # ---- R19 the "arguments were packed" flag is never ignored
+    # compile_arguments returns (start, count, has_spread): with a spread among the arguments they arrive packed in ONE array register, and the caller
+    # must pick the *Spread form of its call instruction.  A call site that drops the flag passes the array itself as the only argument.
+    ck.rule("R19.spread-flag-read", "every caller of compile_arguments reads the has_spread component of its result", floor=4)
+    ca = [p for p in fx.fns if p.endswith("::compile_arguments")]
+    if ck.anchor(len(ca) == 1 and "bool" in fx.tys(fx.fns[ca[0]].sig[-1]), "Compiler::compile_arguments -> Result<(Register, u8, bool), _>"):
+        for p, g in sorted(fx.fns.items()):
+            if g.derived or not comp(g):
+                continue
+            for bi, t in g.calls():
+                if t[1].get("d") != ca[0] or t[3][1]:
+                    continue
+                holders = {t[3][0]}
+                ch = True
+                while ch:
+                    ch = False
+                    for b2, t2 in g.calls():
+                        if ("ops::Try" in (t2[1].get("d") or "")) and t2[2] and t2[2][0][0] in ("c", "m") and t2[2][0][1][0] in holders and not t2[3][1] and t2[3][0] not in holders:
+                            holders.add(t2[3][0]); ch = True
+                    for bl in g.blocks:
+                        for st in bl["s"]:
+                            if st[0] == "a" and not st[1][1] and st[1][0] not in holders and st[2][0] == "use" and st[2][1][0] in ("c", "m") and st[2][1][1][0] in holders \
+                                    and not any(isinstance(e, list) and e[0] == "f" and e[3] == "tuple" for e in st[2][1][1][1]):
+                                holders.add(st[1][0]); ch = True
+                # a read of tuple component 2 of the (unwrapped) result
+                flag_locals = set()
+                direct = False
+                for bl in g.blocks:
+                    for st in bl["s"]:
+                        if st[0] == "a" and st[2][0] == "use" and st[2][1][0] in ("c", "m") and st[2][1][1][0] in holders:
+                            tf = [e for e in st[2][1][1][1] if isinstance(e, list) and e[0] == "f" and e[3] == "tuple"]
+                            if tf and tf[-1][1] == 2 and not st[1][1]:
+                                flag_locals.add(st[1][0])
+                    tt = bl["t"]
+                    if tt[0] == "switch" and tt[1][0] in ("c", "m") and tt[1][1][0] in holders and \
+                            any(isinstance(e, list) and e[0] == "f" and e[3] == "tuple" and e[1] == 2 for e in tt[1][1][1]):
+                        direct = True
+                # the flag is *used*: tested, or handed on (a `let (.., _has_spread) = ..` binding that nothing reads does not count)
+                read = direct
+                for bl in g.blocks:
+                    tt = bl["t"]
+                    if tt[0] == "switch" and tt[1][0] in ("c", "m") and tt[1][1][0] in flag_locals:
+                        read = True
+                    if tt[0] == "call" and any(a[0] in ("c", "m") and a[1][0] in flag_locals for a in tt[2]):
+                        read = True
+                    for st in bl["s"]:
+                        if st[0] == "a" and st[1][0] not in flag_locals and any(pl[0] in flag_locals for pl in F.rvalue_places(st[2])):
+                            read = True
+                ck.instance("R19.spread-flag-read", "%s: has_spread of compile_arguments" % g.path, F.short_span(t[6]), ok=read)
+                if not read:
+                    ck.finding("R19.spread-flag-read", "R19.spread-flag-read/%s" % (g.parent if g.closure else g.path), F.short_span(t[6]),
+                               "`%s` ignores whether compile_arguments packed the arguments into one array (a spread among them): the call instruction it emits passes that "
+                               "array as the only argument - `super(first, ...rest)` hands the base constructor one array" % g.path)
     # ---- R18 the compilers of a parameter list agree (T-SIB): every kind of parameter is bound, and a rest parameter is recorded
     ck.rule("R18.parameter-list-siblings", "every function that compiles a parameter list (a match on ast::Pattern next to a FunctionInfo it builds) binds each kind of "
                                            "parameter and records the rest parameter", floor=6)
